@@ -144,6 +144,71 @@ func runC13(c *fw.Ctx) {
 	}
 	c.Cases("pinned", len(pins), true, func(i int, r *rng.R) { c13Case(c, r, pins[i]) })
 	historyCases(c, "history", 600, 60000, probeNative)
+	c.Cases("import-after-rejection", c.N(60, 3000), false, func(i int, r *rng.R) {
+		t := spec.GenTree(r, spec.Opts{MaxDepth: r.Range(2, 4), MaxWidth: r.Range(2, 4), ScalarBias: 4})
+		nat := drive.Native(t)
+		in := func() string {
+			return "native tree " + t.Canon() + ": first imported with one leaf replaced by an unsupported value (rejected), then repaired and imported again"
+		}
+		guard(c, in, func() {
+			// collect the slots of the native tree
+			var setters []func(v any, restore bool)
+			var walk func(n any)
+			walk = func(n any) {
+				switch x := n.(type) {
+				case []any:
+					for j := range x {
+						j, old := j, x[j]
+						setters = append(setters, func(v any, restore bool) {
+							if restore {
+								x[j] = old
+							} else {
+								x[j] = v
+							}
+						})
+						walk(old)
+					}
+				case map[string]any:
+					for k := range x {
+						k, old := k, x[k]
+						setters = append(setters, func(v any, restore bool) {
+							if restore {
+								x[k] = old
+							} else {
+								x[k] = v
+							}
+						})
+						walk(old)
+					}
+				}
+			}
+			walk(nat)
+			if len(setters) == 0 {
+				return
+			}
+			set := setters[r.Intn(len(setters))]
+			set(complex(1, 2), false)
+			pan, _ := drive.Protect(func() { fromNative(nat) })
+			set(nil, true)
+			if !pan {
+				return // the leaf was not reached as a value (cannot happen for these trees); nothing to judge
+			}
+			var imported any
+			if pan, msg := drive.Protect(func() { imported = fromNative(nat) }); pan {
+				c.Violate("import-rejected-after-earlier-rejection", in(), "the repaired native tree is imported", "panic: "+msg)
+				return
+			}
+			if w := stringCanon(imported); w != t.Canon() {
+				c.Violate("import-differs", in(), t.Canon(), w)
+				return
+			}
+			if d := nativeDiff(nativeOf(imported), t, ""); d != "" {
+				c.Violate("import-export-roundtrip-differs", in(), t.Canon(), d)
+			}
+			c.Count("imports_after_rejection")
+			c.Distinct(in())
+		})
+	})
 	c.Cases("deep", c.N(60, 3000), false, func(i int, r *rng.R) {
 		d := []int{10, 16, 17, 18, 33, 34, 35, 66, 67, 68, 137, 138, 139, 300}[r.Intn(14)]
 		t := spec.ListV(spec.IntV(1), spec.ObjV("leaf", spec.ListV()))
